@@ -531,6 +531,13 @@ def parse_equation_terms(equation: str) -> List[Term]:
         # to print the expression that failed
         raise ParserError(f"Failed to parse right-hand side of: '{equation}'") from e
 
+    # Error if there is no variable on the left-hand side to assign to (the
+    # statement would otherwise be silently dropped from the model)
+    if not any(filter(lambda x: x.type == Type.ENDOGENOUS, lhs_terms)):
+        raise ParserError(
+            f"Failed to find a variable on the left-hand side of: '{equation}'"
+        )
+
     if any(filter(lambda x: x.type == Type.KEYWORD, lhs_terms)) or any(
         filter(lambda x: x.type == Type.INVALID, rhs_terms)
     ):
